@@ -19,7 +19,7 @@ import numpy as np
 
 from toqito.channel_ops import apply_channel, complementary_channel, dual_channel, kraus_to_choi
 
-from ..exact import NotExact, call, split_int
+from ..exact import NotExact, call, split_int, present
 from .c04 import Z, gint, jkraus, jmat, mat_eq, safe_jmat, spec_apply, spec_choi, z_eq_arr
 
 RULE = ("dual_channel: random Kraus families (A_i, B_i) with Gaussian-integer entries (complex, non-symmetric, |re|,|im| < 2^6), ranks 1..5, input and "
@@ -65,8 +65,9 @@ def check_dual(ctx, din, dout, r, cp, cplx, seed=None):
     seed = int(ctx.rng.integers(1 << 62)) if seed is None else int(seed)
     rng = np.random.default_rng(seed)
     (di0, di1), (do0, do1) = din, dout
-    As = [gint(rng, (do0, di0), cplx) for _ in range(r)]
-    Bs = As if cp else [gint(rng, (do1, di1), cplx) for _ in range(r)]
+    # values as drawn; presentation (memory layout, real/int dtype where the values allow, mixed within one list) varies
+    As = [present(rng, gint(rng, (do0, di0), cplx and not (r > 1 and k == 0 and rng.integers(3) == 0))) for k in range(r)]
+    Bs = As if cp else [present(rng, gint(rng, (do1, di1), cplx)) for _ in range(r)]
     X = gint(rng, (di0, di1), True)
     Y = gint(rng, (do0, do1), True)
     zX, zY = Z.of(X), Z.of(Y)
@@ -143,7 +144,7 @@ def check_dual(ctx, din, dout, r, cp, cplx, seed=None):
     if J[0] != "ok":
         ctx.violation(f"dual_channel: kraus_to_choi failed ({J[1]})", {"function": "kraus_to_choi", "args": base, "case_seed": seed})
         return False
-    J = J[1]
+    J = present(rng, J[1], allow_dtype=False)
     if min(J.shape) < 2:
         ctx.count("skipped/vector-shaped-choi")
         return ok
@@ -282,6 +283,7 @@ def check_compl(ctx, d, r, real_only=False, seed=None):
     desc = {"fn": "complementary_channel", "d": d, "rank": r}
     ctx.case(desc, d >= 2 and r >= 2, f"complementary/d={d}/r={r}")
     info = {"case_seed": seed, "function": "complementary_channel", "args": desc, "scaled_ops": [jmat_num(n) for n in nums], "denominator": D, "theorem": "compl_entry"}
+    Ks = [present(rng, k) for k in Ks]   # real-valued operators may arrive as float64/int64 next to complex ones
     snap = [k.copy() for k in Ks]
     impl = call(complementary_channel, Ks)
     model = ctx.lean().ask("c05_complementary", {"ops": [jmat_num(n) for n in nums], "scale2": D * D})
